@@ -251,6 +251,12 @@ theorem normalize3_parallel (v : Vec3) (h : minval ≤ Real.sqrt (normSq3 v)) :
   simp only [normSq3] at h
   simp only [normalize3, mju_normalize3_eq, normSq3, if_neg (not_lt.mpr h)]
 
+example : minval ≤ Real.sqrt (normSq3 ((0 : ℝ), (2 : ℝ), (0 : ℝ))) := by
+  have e : Real.sqrt (normSq3 ((0 : ℝ), (2 : ℝ), (0 : ℝ))) = 2 := by
+    rw [show normSq3 ((0 : ℝ), (2 : ℝ), (0 : ℝ)) = 2 ^ 2 by simp only [normSq3]; norm_num]
+    exact Real.sqrt_sq (by norm_num)
+  rw [e]; linarith [minval_lt_one]
+
 theorem normalize4_norm (q : Quat) : (normalize4 q).1 = Real.sqrt (normSq4 q) := by
   obtain ⟨q0, q1, q2, q3⟩ := q
   simp only [normalize4, mju_normalize4_eq, normSq4]
@@ -576,5 +582,82 @@ example : normSq4 quatOne = 1 ∧ minval ≤ Real.sqrt (normSq3 ((1 : ℝ), (0 :
     have hm : minval < 1/4 := by unfold minval; norm_num
     rw [abs_of_pos (by nlinarith)]
     nlinarith
+
+/-! ### analytic derivatives `mjd_subQuat`, `mjd_quatIntegrate` (engine_derivative.c) — partial
+
+The property "the analytic derivatives are the derivatives" (`HasDerivAt` of `mju_subQuat` / `mju_quatIntegrate`
+in tangent-space coordinates) is **not proved**; it is covered by the finite-difference oracle of
+`checks/c24.py` on the compiled code.  The theorems below are the algebraic part that is proved about the
+generated kernels. -/
+
+/-- partial: `Db = -Daᵀ` for every input (what is missing: `Da` is the tangent-space derivative of
+    `mju_subQuat` w.r.t. `qa`). -/
+theorem mjd_subQuat_Db_partial (qa qb : Quat) :
+    (mjdSubQuat qa qb).2 = matScale (-1) (matT (mjdSubQuat qa qb).1) := by
+  obtain ⟨a0, a1, a2, a3⟩ := qa; obtain ⟨b0, b1, b2, b3⟩ := qb
+  simp only [mjdSubQuat, mjd_subQuat, matT, matScale, real_ofInt, Prod.mk.injEq]
+  push_cast
+  tuple_ring
+
+/-- partial: `Dscale = Dvel · vel` for every input (chain rule through the scaled velocity; what is missing:
+    `Dvel` is the derivative w.r.t. the scaled velocity). -/
+theorem mjd_quatIntegrate_Dscale_partial (vel : Vec3) (scale : ℝ) :
+    (mjdQuatIntegrate vel scale).2.2 = mulMatVec3 (mjdQuatIntegrate vel scale).2.1 vel := by
+  obtain ⟨v0, v1, v2⟩ := vel
+  simp only [mjdQuatIntegrate, mjd_quatIntegrate, mulMatVec3, mju_mulMatVec3_eq, Prod.mk.injEq]
+  tuple_ring
+
+/-- partial: in the branch `|scale·vel| > 1/32` (closed-form coefficients, no Taylor expansion) the matrix `Dquat`
+    is exactly the rotation matrix of the *inverse* of the increment quaternion that `mju_quatIntegrate`
+    multiplies by, i.e. the adjoint of the increment — the known closed form of the derivative w.r.t. the
+    quaternion (what is missing: the `HasDerivAt` statement itself and the Taylor branch). -/
+theorem mjd_quatIntegrate_Dquat_partial (vel : Vec3) (scale : ℝ)
+    (hx : 1 / 32 < Real.sqrt (normSq3 (scale * vel.1, scale * vel.2.1, scale * vel.2.2))) :
+    (mjdQuatIntegrate vel scale).1 =
+      quat2Mat (negQuat (axisAngle2Quat (normalize3 (scale * vel.1, scale * vel.2.1, scale * vel.2.2)).2
+        (normalize3 (scale * vel.1, scale * vel.2.1, scale * vel.2.2)).1)) := by
+  obtain ⟨v0, v1, v2⟩ := vel
+  have hmv : minval ≤ Real.sqrt (normSq3 (scale * v0, scale * v1, scale * v2)) := by
+    have : minval < 1 / 32 := by unfold minval; norm_num
+    linarith
+  rw [normalize3_norm, normalize3_parallel _ hmv]
+  have hxx0 := Real.mul_self_sqrt (sumsq3_nonneg (scale * v0) (scale * v1) (scale * v2))
+  simp only [normSq3] at hx ⊢
+  set x := Real.sqrt (scale * v0 * (scale * v0) + scale * v1 * (scale * v1) + scale * v2 * (scale * v2)) with hx_def
+  have hxpos : 0 < x := by linarith
+  have hxne : x ≠ 0 := ne_of_gt hxpos
+  have hcond : (1 : ℝ) / 32 < |x| := by rw [abs_of_pos hxpos]; exact hx
+  have hc : Real.cos x = 2 * Real.cos (x * (1/2)) ^ 2 - 1 := by
+    rw [← Real.cos_two_mul]; ring_nf
+  have hs : Real.sin x = 2 * Real.sin (x * (1/2)) * Real.cos (x * (1/2)) := by
+    rw [← Real.sin_two_mul]; ring_nf
+  have hsc := Real.sin_sq_add_cos_sq (x * (1/2))
+  have key := dquat_entries x (scale * v0) (scale * v1) (scale * v2) (Real.sin (x * (1/2)))
+    (Real.cos (x * (1/2))) hxne hxx0 hsc
+  simp only [Prod.mk.injEq] at key
+  obtain ⟨k0, k1, k2, k3, k4, k5, k6, k7, k8⟩ := key
+  simp only [mjdQuatIntegrate, mjd_quatIntegrate, mju_dot3, quat2Mat, negQuat, axisAngle2Quat,
+    mju_axisAngle2Quat_eq, mju_negQuat_eq, mju_quat2Mat_eq, matF, real_ofInt, real_sqrt, real_cos, real_sin,
+    real_abs, decide_eq_true_eq, real_lt_iff]
+  push_cast
+  rw [← hx_def]
+  simp only [if_pos hcond]
+  rw [hc, hs]
+  simp only [Prod.mk.injEq]
+  refine ⟨?_, ?_, ?_, ?_, ?_, ?_, ?_, ?_, ?_⟩
+  · linear_combination k0
+  · linear_combination k1
+  · linear_combination k2
+  · linear_combination k3
+  · linear_combination k4
+  · linear_combination k5
+  · linear_combination k6
+  · linear_combination k7
+  · linear_combination k8
+
+/-- the hypothesis of `mjd_quatIntegrate_Dquat_partial` is satisfiable: vel = e_x, scale = 1 -/
+example : 1 / 32 < Real.sqrt (normSq3 ((1 : ℝ) * (1 : ℝ), (1 : ℝ) * (0 : ℝ), (1 : ℝ) * (0 : ℝ))) := by
+  have e : Real.sqrt (normSq3 ((1 : ℝ) * (1 : ℝ), (1 : ℝ) * (0 : ℝ), (1 : ℝ) * (0 : ℝ))) = 1 := by simp [normSq3]
+  rw [e]; norm_num
 
 end MjProof.C24
